@@ -98,6 +98,14 @@ theorem filter_erase (ps : List (Path × PObj)) (p : Path) :
   rw [List.filter_map]
   rfl
 
+theorem nameTaken_erase (ps es : List (Path × PObj)) :
+    nameTaken (ps.map eraseEntry) (es.map eraseEntry) = nameTaken ps es := by
+  unfold nameTaken
+  rw [← List.map_tail, List.any_map]
+  congr 1
+  funext e
+  exact hasPath_erase ps e.1
+
 theorem convertProp_erase (r : Nat) (f : File) (p : Path) :
     convertProp 0 f.erase p = ((convertProp r f p).1.erase, (convertProp r f p).2) := by
   unfold convertProp
@@ -109,8 +117,8 @@ theorem convertProp_erase (r : Nat) (f : File) (p : Path) :
     | new n => rfl
     | old o =>
       simp only [Option.map_some, PObj.erase]
-      rw [filter_erase, ← converted_erase r, createAll_erase]
-      rfl
+      rw [filter_erase, ← converted_erase r, createAll_erase, nameTaken_erase]
+      cases nameTaken f.props (converted r p o) <;> rfl
 
 theorem convertDimObj_erase (r : Nat) (daid : String) (d : Dim) :
     convertDimObj 0 daid d.erase = ((convertDimObj r daid d).1.erase, (convertDimObj r daid d).2) := by
